@@ -1908,8 +1908,11 @@ class Interp:
 
                 def lt(x, y):
                     return self.truth(self.call_value(cmpf, [x, y]))
-                # (a stable merge: elements the comparator does not distinguish keep their order -- std::sort gives no such promise;
-                #  rules that depend on the order of equivalent elements have to say so)
+                # elements the comparator does not distinguish: std::stable_sort keeps their order; std::sort promises nothing.  With
+                # `unstable_sort_reverses` set, std::sort hands them back in REVERSED order -- a legitimate outcome that a rule can use
+                # to ask whether the caller depends on a promise it was not given.
+                if nm == "sort" and getattr(self, "unstable_sort_reverses", False):
+                    seg.reverse()
                 seg.sort(key=functools.cmp_to_key(lambda x, y: -1 if lt(x, y) else (1 if lt(y, x) else 0)))
                 b.v.items[b.i:e.i] = seg
                 return None
